@@ -514,6 +514,9 @@ def ev(t, rows, env: Env):
         return _lift(lambda x: x is None, [ev(t[1], rows, env)], n)
     if h == "is_not_null":
         return _lift(lambda x: x is not None, [ev(t[1], rows, env)], n)
+    if h in ("is_nan", "is_not_nan"):
+        # null for null; the value domains contain no NaN (SQLite cannot store one)
+        return _lift(lambda x: None if x is None else ((x != x) == (h == "is_nan")), [ev(t[1], rows, env)], n)
     if h == "floor":
         return _lift(lambda x: None if x is None else float(math.floor(x)), [ev(t[1], rows, env)], n)
     if h == "ceil":
@@ -938,6 +941,10 @@ def typeof(t, env) -> str:
         _terr(f"{h}({ts[0]})")
     if h in ("is_null", "is_not_null"):
         return "bool"
+    if h in ("is_nan", "is_not_nan"):
+        if _conv(ts[0], "float"):
+            return "bool"
+        _terr(f"{h}({ts[0]})")
     if h in ("fill_null", "coalesce", "hmax", "hmin"):
         return lca(ts)
     if h == "is_in":
@@ -1085,7 +1092,7 @@ class Model:
             if isinstance(old, list):
                 cid = env.resolve(old)
                 if cid not in st.visible:
-                    raise Disabled("rename of a hidden column")
+                    raise Reject("ColumnNotFoundError", "rename of a hidden column")
             else:
                 cid = st.name_to_cid(old)
                 if cid is None:
@@ -1162,6 +1169,8 @@ class Model:
         return n
 
     def _v_slice_head(self, st, states, e):
+        if e[1] < 0 or e[2] < 0:
+            raise Reject("ValueError", "negative n / offset")
         if st.group:
             raise Reject("ValueError", "slice_head on a grouped table")
         if not self.slice_enabled(st):
